@@ -64,10 +64,13 @@ def run(ctx, idx):
     ctx.rule("C07.d", "Completeness and symmetry: every input is used, lists are consumed through symmetric aggregators; AMinusB/ADividedByB apply the operator with A on the left and B on the right; Copy returns its input's values in a fresh array.")
     res = {d.cls.name: (d, r) for d, r in R.results(idx).values() if d.module.name.endswith("eems.basic")}
     n_aug = 0
+    ctx.rule("C07.e", "An arithmetic command only reads what it is given: it neither writes in place through an input array (a later command on the same field would compute with changed values or missing cells) nor edits a list argument (the same weights passed again would be shorter).")
     for name in ARITH:
         if name not in res:
             raise AnalysisError("arithmetic command %s vanished" % name)
         d, r = res[name]
+        R.leaves_inputs_alone(ctx, "C07.e", d, r, "the field is no longer what its producer computed, so the next arithmetic command on it does not return its cell-by-cell definition")
+        R.leaves_arguments_alone(ctx, "C07.e", d, r)
         n_aug += dtype_rule(ctx, "C07.a", d, r)
         R.uses_all_inputs(ctx, "C07.d", d, r)
         R.symmetric_roles(ctx, "C07.d", d, r)
